@@ -57,6 +57,7 @@ type LoopRef struct {
 
 // Interp is the abstract interpreter.
 type Interp struct {
+	Collapsed map[string]*Term
 	InModule func(fn *ssa.Function) bool
 	Hooks    Hooks
 	MaxDepth int
@@ -829,10 +830,23 @@ func (fr *Frame) joinVals(phi *ssa.Phi, vs, gs []*Term, header bool) *Term {
 	}
 	if len(res.Key()) > 4000 {
 		fr.in.noteDeps(key, []*Term{res})
+		fr.in.noteCollapsed(key, res)
 		return Atom(key, phi.Type())
 	}
 	return res
 }
+
+// noteCollapsed remembers the value an atom stands for when a join was only abbreviated because of its size (not
+// widened at a loop head): analyses that need a bound of the value rather than its form can still look at it.
+func (in *Interp) noteCollapsed(name string, v *Term) {
+	if in.Collapsed == nil {
+		in.Collapsed = map[string]*Term{}
+	}
+	in.Collapsed[name] = v
+}
+
+// CollapsedValue returns the value abbreviated by the atom of that name, if any.
+func (fr *Frame) CollapsedValue(name string) *Term { return fr.in.Collapsed[name] }
 
 // joinMems joins memories at a block entry (b<0: function exit).
 func (in *Interp) joinMems(fr *Frame, b int, mems []*Mem, gs []*Term, header bool) *Mem {
@@ -897,6 +911,7 @@ func (in *Interp) joinMems(fr *Frame, b int, mems []*Mem, gs []*Term, header boo
 		}
 		if len(res.Key()) > 4000 {
 			in.noteDeps(skey, []*Term{res})
+			in.noteCollapsed(skey, res)
 			res = Atom(skey, typeAt(c.obj.T, c.path))
 		}
 		out.put(c.obj, c.path, res)
